@@ -53,6 +53,27 @@ Theorem C18_exact_insert : forall trk krs listed last_id t,
        /\ (forall k, ~ In k (map fst krs) -> lookup k t' = lookup k t).
 Proof. exact at_insert_exact. Qed.
 
+(* INSERT ... ON DUPLICATE KEY UPDATE: before = the colliding rows as of before, after = the same keys plus the inserted
+   rows as of after, every other row unchanged; an assignment to a key column is refused up front, and must be *)
+Theorem C18_exact_upsert : forall pk all m u krs t t' b a,
+  NoDup m -> (forall k, In k m -> lookup k t <> None) ->
+  (forall k r, lookup k t = Some r -> key_of pk r = k) ->
+  (forall r, key_of pk (u r) = key_of pk r) ->
+  at_upsert pk all false m u krs t = Ok t' b a ->
+  b = img_of all t m
+  /\ a = img_of all t' (m ++ map fst krs)
+  /\ (forall k r, In k m -> lookup k t = Some r -> lookup k t' = Some (u r))
+  /\ (forall k r, In (k, r) krs -> lookup k t = None /\ ~ In k m /\ lookup k t' = Some r)
+  /\ (forall k, ~ In k m -> ~ In k (map fst krs) -> lookup k t' = lookup k t).
+Proof. exact at_upsert_exact. Qed.
+
+Theorem C18_upsert_pk_reject : forall pk all m u krs t, exists e, at_upsert pk all true m u krs t = Err e.
+Proof. exact at_upsert_pk_reject. Qed.
+
+Theorem C18_upsert_needs_pk_check :
+  exists pk all m u t t' b a, at_upsert pk all false m u [] t = Ok t' b a /\ map fst b <> [] /\ a = [].
+Proof. exact at_upsert_needs_pk_check. Qed.
+
 (* outside insert_supported the recovery names the wrong key / nothing (listed findings) *)
 Theorem C18_insert_pk_refuted :
   exists listed last_id nrows,
@@ -121,3 +142,11 @@ Example C18_insert_nonvacuous :
   insert_supported (Some [[VInt 7]; [VInt 9]]%Z) 2 = true /\ insert_supported None 1 = true
   /\ go_pk_idx [[false; true; false]; [true; true; true]; [false; false; true]] 1 = [Some 0; Some 2; None]%Z.
 Proof. repeat split; vm_compute; reflexivity. Qed.
+
+Definition ex_set_body (r : row) : row := match r with [i; n; _] => [i; n; VInt 7%Z] | _ => r end.
+Example C18_upsert_nonvacuous :
+  at_upsert [0] [0; 1; 2] false [[VInt 2]]%Z ex_set_body [([VInt 9], [VInt 9; VNull; VInt 1])]%Z ex_tbl
+  = Ok [([VInt 1], [VInt 1; VStr []; VInt 10]); ([VInt 2], [VInt 2; VNull; VInt 7]); ([VInt 3], [VInt 3; VNull; VInt 30]); ([VInt 9], [VInt 9; VNull; VInt 1])]%Z
+       [([VInt 2], [VInt 2; VNull; VInt 20])]%Z
+       [([VInt 2], [VInt 2; VNull; VInt 7]); ([VInt 9], [VInt 9; VNull; VInt 1])]%Z.
+Proof. vm_compute. reflexivity. Qed.
